@@ -48,8 +48,8 @@ pub fn all() -> Vec<Check> {
         Check {
             prop: "C08",
             level: "exploration",
-            parts: vec![part(B, 0, 300_000, 20_000_000, "producer/consumer operation histories over the real BodyWriter + Body, identity coding")],
-            rule: "one run = seeded config (chunk size, level, Accept-Encoding, payload kind) + up to 12 interleaved producer/consumer operations + drop + drain; non-trivial = bytes were written and compared with what the client decoded; distinct = (config, operation kinds in order)",
+            parts: vec![part(B, 0, 1_000_000, 20_000_000, "producer/consumer operation histories over the real BodyWriter + Body, identity coding")],
+            rule: "one run = seeded config (chunk size, level, Accept-Encoding, payload kind) + up to 12 interleaved producer/consumer operations + drop + drain; non-trivial = bytes were written and compared with what the client decoded; distinct = (config, operation kinds in order); grid_cells = short-sequence grid: chunk size in {1,2,3,4,7} x every sequence of <= 3 operation kinds out of 10 (5550 cells), sampled not enumerated",
             assumptions: vec![],
         },
         Check {
@@ -126,7 +126,8 @@ pub fn all() -> Vec<Check> {
             level: "fault_enumeration",
             parts: vec![part(A, 0, 2_000_000, 100_000_000, "over-polling 1..4 times after every kind of terminal event of serve() bodies"),
                         part(B, 0, 300_000, 20_000_000, "over-polling streaming bodies after clean end and after abort"),
-                        part(D, 0, 20_000, 1_000_000, "over-polling serve(ChunkedReadFile) bodies after clean end and after a truncation error")],
+                        part(D, 0, 20_000, 1_000_000, "over-polling serve(ChunkedReadFile) bodies after clean end and after a truncation error"),
+                        part(C, 0, 100_000, 8_000_000, "over-polling a streaming body on a consumer thread while the producer thread is still inside abort/drop")],
             rule: "one stream fault (or none) per run, then k extra polls after the first terminal event; non-trivial = at least one extra poll happened; grid = body shape x terminal kind x extra polls",
             assumptions: vec!["the simulated entity's own streams are fused (stay finished), as the property presupposes"],
         },
